@@ -1454,3 +1454,9 @@ V("rf-c18-parallel-with-replacement", "C18", "fire", UT, _C18_OLD, _c18_par(draw
 V("rf-c18-parallel-transposed", "C18", "fire", UT, _C18_OLD, _c18_par(store="pruned[to[chosen], fro[chosen]] = 0"), rule="RESULT.remove", what="transposed positions cleared")
 V("rf-c18-parallel-guard-le", "C18", "fire", UT, _C18_OLD, _c18_par(guard="len(fro) <= no_edges"), rule="GUARD.remove", what="guard off by one")
 V("rf-c18-parallel-all-edges", "C18", "fire", UT, _C18_OLD, _c18_par().replace("np.where(only_directed(A))", "np.where(A)"), rule=None, what="undirected edges counted as removable", accept_inconclusive=True)
+
+# ------------------------------------------------------------------------------- C16 undirected_edges with a mask over the index arrays (refactor round 2)
+_C16_UE = "    undirected_edges = filter(lambda e: e[0] > e[1], zip(fro, to))\n    return list(undirected_edges)\n"
+V("rf-c16-ue-mask", "C16", "silent", UT, _C16_UE, "    lower = fro > to\n    return list(zip(fro[lower], to[lower]))\n", what="boolean mask on the parallel index arrays")
+V("rf-c16-ue-mask-nonstrict", "C16", "silent", UT, _C16_UE, "    lower = fro >= to\n    return list(zip(fro[lower], to[lower]))\n", what="differs on the diagonal only, which graphs do not use")
+V("rf-c16-ue-mask-unfiltered-second", "C16", "fire", UT, _C16_UE, "    lower = fro > to\n    return list(zip(fro[lower], to))\n", rule=None, what="second array not filtered: pairs misaligned", accept_inconclusive=True)
